@@ -3,6 +3,7 @@ package verifcheck
 import (
 	"fmt"
 	"runtime/debug"
+	"sort"
 	"testing"
 
 	"github.com/sanonone/kektordb/internal/verifkit"
@@ -251,3 +252,34 @@ func trimStack(b []byte) string {
 }
 
 func stackOf() []byte { return debug.Stack() }
+
+func sortedCopy(s []string) []string {
+	out := append([]string{}, s...)
+	sort.Strings(out)
+	return out
+}
+
+func sameSet(a, b []string) bool {
+	a, b = sortedCopy(a), sortedCopy(b)
+	if len(a) != len(b) {
+		return false
+	}
+	for i := range a {
+		if a[i] != b[i] {
+			return false
+		}
+	}
+	return true
+}
+
+func uniq(s []string) []string {
+	seen := map[string]bool{}
+	var out []string
+	for _, x := range s {
+		if !seen[x] {
+			seen[x] = true
+			out = append(out, x)
+		}
+	}
+	return out
+}
